@@ -404,7 +404,7 @@ func (H) Execute(scAny any, cfg simrt.Config, st *core.Stats) (*simrt.Outcome, *
 		return out, v
 	}
 	if out.Truncated {
-		return out, nil
+		return out, core.NoProgress(out)
 	}
 	if r.viol != "" {
 		sig := "mutual-exclusion"
